@@ -50,6 +50,8 @@ func (s *Signer) SignInput(
 	}
 
 	p := s.Pset.Copy()
+	// every change below goes to the staged copy, which is published at the end
+	staged := &Updater{Pset: p}
 	input := s.Pset.Inputs[inIndex]
 
 	if isFinalized(p, inIndex) {
@@ -67,7 +69,7 @@ func (s *Signer) SignInput(
 	// Add the witnessScript to the PSBT in preparation.  If it already
 	// exists, it will be overwritten.
 	if witnessScript != nil {
-		if err := s.AddInWitnessScript(inIndex, witnessScript); err != nil {
+		if err := staged.AddInWitnessScript(inIndex, witnessScript); err != nil {
 			return fmt.Errorf("failed to add input witness script: %s", err)
 		}
 	}
@@ -75,7 +77,7 @@ func (s *Signer) SignInput(
 	// Add the redeemScript to the PSBT in preparation.  If it already
 	// exists, it will be overwritten.
 	if redeemScript != nil {
-		if err := s.AddInRedeemScript(inIndex, redeemScript); err != nil {
+		if err := staged.AddInRedeemScript(inIndex, redeemScript); err != nil {
 			return fmt.Errorf("failed to add input redeem script: %s", err)
 		}
 	}
@@ -88,7 +90,7 @@ func (s *Signer) SignInput(
 	switch {
 	case p.Inputs[inIndex].WitnessScript != nil:
 		if p.Inputs[inIndex].WitnessUtxo == nil {
-			if err := s.nonWitnessToWitness(inIndex); err != nil {
+			if err := staged.nonWitnessToWitness(inIndex); err != nil {
 				return fmt.Errorf(
 					"failed to parse non-witness to witness utxo: %s", err,
 				)
@@ -103,7 +105,7 @@ func (s *Signer) SignInput(
 		// we check the redeemScript content.
 		if txscript.IsWitnessProgram(redeemScript) {
 			if p.Inputs[inIndex].WitnessUtxo == nil {
-				if err := s.nonWitnessToWitness(inIndex); err != nil {
+				if err := staged.nonWitnessToWitness(inIndex); err != nil {
 					return fmt.Errorf(
 						"failed to parse non-witness to witness utxo: %s", err,
 					)
@@ -120,7 +122,7 @@ func (s *Signer) SignInput(
 			script := s.Pset.Inputs[inIndex].NonWitnessUtxo.Outputs[outIndex].Script
 
 			if txscript.IsWitnessProgram(script) {
-				if err := s.nonWitnessToWitness(inIndex); err != nil {
+				if err := staged.nonWitnessToWitness(inIndex); err != nil {
 					return fmt.Errorf(
 						"failed to parse non-witness to witness utxo: %s", err,
 					)
@@ -129,14 +131,11 @@ func (s *Signer) SignInput(
 		}
 	}
 
-	if err := s.addPartialSignature(inIndex, sig, pubKey); err != nil {
+	if err := staged.addPartialSignature(inIndex, sig, pubKey); err != nil {
 		return fmt.Errorf("failed to add signature for input %d: %s", inIndex, err)
 	}
 
-	s.Pset.Global = p.Global
-	s.Pset.Inputs = p.Inputs
-	s.Pset.Outputs = p.Outputs
-	return s.Pset.SanityCheck()
+	return s.Pset.publish(p)
 }
 
 // SignTaprootInputKeySig adds a taproot key-path signature to the input at inIndex
@@ -160,10 +159,7 @@ func (s *Signer) SignTaprootInputKeySig(
 
 	p.Inputs[inIndex].TapKeySig = sig
 
-	s.Pset.Global = p.Global
-	s.Pset.Inputs = p.Inputs
-	s.Pset.Outputs = p.Outputs
-	return s.Pset.SanityCheck()
+	return s.Pset.publish(p)
 }
 
 // SignTaprootInputTapscriptSig adds a taproot tapscript signature to the input at inIndex
@@ -191,8 +187,5 @@ func (s *Signer) SignTaprootInputTapscriptSig(
 
 	p.Inputs[inIndex].TapScriptSig = append(p.Inputs[inIndex].TapScriptSig, tapscriptSig)
 
-	s.Pset.Global = p.Global
-	s.Pset.Inputs = p.Inputs
-	s.Pset.Outputs = p.Outputs
-	return s.Pset.SanityCheck()
+	return s.Pset.publish(p)
 }
